@@ -126,7 +126,7 @@ class Gen:
                 rules.append({"t": "lig", "comps": comps, "to": r.choice(self.ligs or self.all_glyphs)})
         elif typ == "ctx":
             for _ in range(n):
-                rules.append(self.ctx_rule(False, named_ok))
+                rules.append(self.sibling(rules, self.ctx_rule(False, named_ok)))
         elif typ == "pos1":
             used = set()
             for _ in range(n):
@@ -162,8 +162,29 @@ class Gen:
                     rules.append({"t": "pos2", "first": p1[a], "second": p2[b], "value": self.value(0.8), "cls": True, "enum": False})
         elif typ == "posctx":
             for _ in range(n):
-                rules.append(self.ctx_rule(True, named_ok))
+                rules.append(self.sibling(rules, self.ctx_rule(True, named_ok)))
         return rules
+
+    def sibling(self, rules, rule):
+        """Feature files are written as families of rules that share a context and an action and differ in the
+        marked glyph (`sub one' lookup OSF; ... sub two' lookup OSF;`): with some probability make `rule` a sibling
+        of an earlier rule of the same lookup - same backtrack, lookahead and action, another (overlapping) input."""
+        r = self.rng
+        cands = [x for x in rules if not x.get("inline_lig") and len(x["input"]) == 1]
+        if not cands or r.random() > 0.45 or rule.get("inline_lig"):
+            return rule
+        src = r.choice(cands)
+        pool = self.letters[:7]
+        inp = self.pick_set(pool)
+        act = src["input"][0][1]
+        if act and act[0] == "single":
+            tgt = act[1][0][1]
+            act = ["single", [[g, tgt] for g in inp["g"]]]
+        out = {"t": src["t"], "back": [dict(x) for x in src["back"]], "input": [[inp, act]], "ahead": [dict(x) for x in src["ahead"]], "ignore": False}
+        if src.get("ignore") or r.random() < 0.15 and src["t"] == "ctx":
+            out["ignore"] = True
+            out["input"] = [[inp, None]]
+        return out
 
     def partition(self, pool, n):
         r = self.rng
